@@ -102,3 +102,37 @@ def clientstate(ctx, prop, mod):
     ctx.cov['traces_validated_against_impl'] += r['executions']
     if r['mismatches']:
         violation(ctx, prop, 'clientstate-long:' + r['mismatches'][0]['field'], dict(mismatches=r['mismatches'][:10]))
+
+
+def redirect(ctx, prop, mod):
+    ctx.verif = mod.VERIF
+    mod.build(ctx)
+    maxlen, k, frac = (4, 2, 0.3) if ctx.tier == 'quick' else (5, 3, 0.3)
+    rows = tlc_enum(ctx, mod, 'RedirectGuard',
+                    'SPECIFICATION Spec\nCONSTANTS MaxLen = %d\nINVARIANTS NoOffSite StillUseful\nCHECK_DEADLOCK FALSE\n' % maxlen)
+    rf = os.path.join(ctx.tmp, 'rows.ndjson')
+    with open(rf, 'w') as f:
+        for r in rows:
+            f.write(json.dumps(r) + '\n')
+    res = os.path.join(ctx.tmp, 'rg.json')
+    cmd = [ctx.bin, 'redir', '-rows', rf, '-k', str(k), '-seed', str(ctx.seed), '-frac', str(frac), '-out', res]
+    mod.run(cmd, 3000)
+    r = json.load(open(res))
+    ctx.cov.update(strings=r['rows'], executions=r['executions'], oracle_checks=r['oracle_checks'], max_string_length=maxlen,
+                   flows=['password', 'password-json', 'otp', 'totp', 'sms', 'totp-q', 'sms-q', 'oauth2', 'oauth2-json'], exhaustive=True,
+                   resolver_disagreements=r['resolver_disagreements'])
+    ctx.cov['traces_validated_against_impl'] += r['executions']
+    ctx.cov['samples'] = [x for x in rows if x['follows']][:2] + [x for x in rows if x['resolve'] == 'offsite'][:2]
+    if r['dead']:
+        mod.die('redirect driver: %d logins did not succeed (dead driver, not a verdict)' % r['dead'])
+    if r['resolver_disagreements']:
+        mod.die('the TLA+ Resolve and the Go browser oracle disagree on %d strings (machinery problem, not a verdict)'
+                % r['resolver_disagreements'])
+    if r['mismatches']:
+        mod.run(cmd, 3000)
+        r2 = json.load(open(res))
+        if r2['mismatches'] and r2['mismatches'][0] == r['mismatches'][0]:
+            violation(ctx, prop, 'redirect:%s:%s' % (r['mismatches'][0]['flow'], r['mismatches'][0]['kind']),
+                      dict(mismatches=r['mismatches'][:20]))
+        else:
+            mod.die('redirect mismatch did not reproduce')
